@@ -19,7 +19,15 @@ Oracle (property statement, clause by clause):
               both END at the same address, give equal registers, flags, PC, power state and memory effects
   idempotence : assemble(text(emitted)) == emitted
   listing   : (phase 2) texts that round-tripped alone, composed into listings of distinct lines sharing an operand
-              text / a mnemonic, several listings per Assembler object: bytes == concatenation of the stand-alone bytes
+              text / a mnemonic, several listings per Assembler object: bytes == concatenation of the stand-alone bytes;
+              before every second listing the object is first given a program it REJECTS (generated kind: symbol whose
+              value does not fit / undefined symbol / wide literal / a disassembler text the assembler rejects / off-page
+              near jump / syntax error / directive with a bad last argument / duplicate label; generated position of
+              the poisoned statement among good lines): a rejected program leaves no trace in the object
+  startup   : (phase 4, c09_startup.py) in PRISTINE processes: a second Assembler assembling a disassembler text while
+              another thread is parked (harness-owned schedule, generated line) inside the first Assembler() + assemble
+              of the process, or after that first activity was abandoned by an asynchronous exception at a generated
+              line: same result as the unscheduled run
   sweep     : (phase 3) the text that is fed to the assembler is the text of THAT instruction: code buffers of 6
               accepted instructions (neighbours related by generated relations: same opcode with other operand bytes /
               one operand byte changed / other prefix, same opcode family, identical, unrelated) are disassembled by a
@@ -51,7 +59,12 @@ RULE = ("decoder-accepted encodings: every (prefix|none, opcode) pair x second b
         "(hex literals, names), assembled, re-decoded, executed against the original from one generated state, "
         "re-assembled. Non-trivial = the instruction has >= 1 operand; distinct = (prefix, mnemonic, operand-mode "
         "signature) i.e. distinct text shapes x prefix. Phase 2: listings of 6 distinct stand-alone-good texts related "
-        "by operand text / mnemonic, 8 listings per Assembler object; distinct = listing content. Phase 3: for every "
+        "by operand text / mnemonic, 8 listings per Assembler object, every second listing preceded by a program the "
+        "assembler rejects (8 generated kinds x generated position of the poisoned statement; distinct = program text, "
+        "counted only when really rejected); distinct = listing content. Phase 4: start-up schedules in pristine "
+        "processes (first Assembler of the process: construct / construct + assemble a pool text) x (second Assembler "
+        "assembling a pool text) x (parked at / abandoned at a generated traced line); distinct = (mode, A, B, line "
+        "fraction). Phase 3: for every "
         "(prefix|none, opcode) code buffers of 6 accepted instructions, each related to its predecessor by a generated "
         "relation (same opcode + other operand bytes / exactly one operand byte changed / other prefix, same opcode "
         "family, identical, unrelated), disassembled by a linear sweep at a generated base address; distinct = buffer "
@@ -66,6 +79,9 @@ INTERESTING = (0x00, 0x01, 0x02, 0x0F, 0x10, 0x7F, 0x80, 0x81, 0xFE, 0xFF,
                0xD4, 0xD5, 0xDA, 0xDD, 0xDF, 0xE6, 0xE8, 0xEC, 0xED, 0xEE, 0xEF, 0xF0, 0xF1, 0xF2, 0xF5, 0xF7,
                0xFB, 0xFC, 0xFD)
 TIME_BUDGET = {"quick": 240.0, "thorough": 1500.0}
+# phases 2 and 4 need phase 1's results and therefore run late: each gets at least this long whatever phase 1 used up,
+# so that a loaded box cannot silently drop a whole class (idle box: phase 2 needs ~4 s / 25 s, phase 4 ~3 s / 25 s)
+LATE_PHASE_GRACE = {"quick": 60.0, "thorough": 300.0}
 
 
 # ----------------------------------------------------------------------------------------------------------
@@ -601,9 +617,52 @@ LISTING_LEN = 6
 LISTINGS_PER_ASSEMBLER = 8
 
 
-def listing_step(asm: Any, history: List[List[Tuple[str, str]]]) -> List[Violation]:
-    """Assemble the LAST listing of `history` on `asm`, an Assembler object that has already assembled the earlier
-    ones (in order), and compare with the concatenation of its lines' stand-alone bytes."""
+def is_reject(entry: Any) -> bool:
+    """History entries are listings ([(text, hex of the stand-alone bytes)]) or rejected programs
+    ({"reject": [source lines], "kind": generated kind})."""
+    return isinstance(entry, dict)
+
+
+def run_reject(asm: Any, entry: Dict[str, Any]) -> bool:
+    """Feed a program the assembler is expected to reject to the (long-lived) Assembler object.  Returns True when it
+    was rejected (anything raised); nothing is asserted about the program itself."""
+    try:
+        asm.assemble("\n".join(entry["reject"]) + "\n")
+    except Exception:  # noqa: BLE001 - a rejection, whatever its class
+        return True
+    return False
+
+
+def _history_json(history: List[Any]) -> List[Any]:
+    return [dict(e) if is_reject(e) else [list(x) for x in e] for e in history]
+
+
+def _attribute_reuse(history: List[Any]) -> Tuple[str, Optional[str]]:
+    """For a listing (the last entry of `history`) that came out wrong on a used Assembler object: what about the
+    object's past is needed for that?  Returns (symptom suffix, kind of the responsible rejected program or None).
+    Decided by re-running on fresh objects: the history without its rejected programs (still wrong -> plain reuse),
+    then the history without one rejected program at a time (the latest whose removal cures it is the responsible one)."""
+    prior = history[:-1]
+    if not prior:
+        return " (first listing on a fresh Assembler)", None
+    rejects = [i for i, e in enumerate(prior) if is_reject(e)]
+    if rejects:
+        stripped = [e for e in history if not is_reject(e)]
+        if not listing_violations(stripped, attribute=False):
+            kind = "several"
+            for i in reversed(rejects):
+                if not listing_violations(history[:i] + history[i + 1:], attribute=False):
+                    kind = str(history[i].get("kind", "?"))
+                    break
+            return " (Assembler object reused after a rejected program)", kind
+        prior = stripped[:-1]
+    return (" (Assembler object reused)" if prior else " (first listing on a fresh Assembler)"), None
+
+
+def listing_step(asm: Any, history: List[Any], attribute: bool = True) -> List[Violation]:
+    """Assemble the LAST entry of `history` (a listing) on `asm`, an Assembler object that has already been given the
+    earlier entries (listings, rejected programs) in order, and compare with the concatenation of its lines'
+    stand-alone bytes."""
     from sc62015.pysc62015.sc_asm import AssemblerError
 
     out: List[Violation] = []
@@ -611,16 +670,26 @@ def listing_step(asm: Any, history: List[List[Tuple[str, str]]]) -> List[Violati
     listing = history[li]
     src = ".ORG 0x01000\n" + "\n".join(t for t, _ in listing) + "\n"
     expected = b"".join(bytes.fromhex(h) for _, h in listing)
-    case = {"kind": "listing", "history": [[list(x) for x in l] for l in history]}
+    case = {"kind": "listing", "history": _history_json(history)}
+    where_all = "listing of texts that each assemble alone"
+
+    def place(where: str, symptom: str) -> Tuple[str, str]:
+        if not attribute:
+            return where, symptom
+        suffix, kind = _attribute_reuse(history)
+        if kind is not None:
+            return f"listing after a rejected program ({kind})", symptom + suffix
+        return where, symptom + (suffix if where != where_all else "")
+
     try:
         got = bytes(asm.assemble(src).as_binary())
     except AssemblerError as exc:
-        out.append(Violation("listing", "listing of texts that each assemble alone", "listing rejected: " + norm_error(str(exc))[:80],
-                             case, f"listing #{li} {[t for t, _ in listing]}: {str(exc)[:160]}"))
+        w, s = place(where_all, "listing rejected: " + norm_error(str(exc))[:80])
+        out.append(Violation("listing", w, s, case, f"entry #{li} {[t for t, _ in listing]}: {str(exc)[:160]}"))
         return out
     except Exception as exc:  # noqa: BLE001
-        out.append(Violation("listing", "listing of texts that each assemble alone", f"listing raises {type(exc).__name__}",
-                             case, f"listing #{li}: {type(exc).__name__}: {str(exc)[:160]}"))
+        w, s = place(where_all, f"listing raises {type(exc).__name__}")
+        out.append(Violation("listing", w, s, case, f"entry #{li}: {type(exc).__name__}: {str(exc)[:160]}"))
         return out
     if got != expected:
         # first differing line
@@ -633,26 +702,144 @@ def listing_step(asm: Any, history: List[List[Tuple[str, str]]]) -> List[Violati
                 bad = where_of(r[0]) if r else t
                 break
             off += n
-        out.append(Violation("listing", f"line {bad}", "bytes in a listing differ from the same line assembled alone"
-                             + (" (first listing on a fresh Assembler)" if li == 0 else " (Assembler object reused)"),
-                             case, f"listing #{li} {[t for t, _ in listing]}: got {got.hex()} expected {expected.hex()}"))
+        w, s = place(f"line {bad}", "bytes in a listing differ from the same line assembled alone")
+        past = [("rejected program: " + " | ".join(e["reject"])) for e in history[:li] if is_reject(e)][-2:]
+        out.append(Violation("listing", w, s, case,
+                             f"entry #{li} {[t for t, _ in listing]}: got {got.hex()} expected {expected.hex()}"
+                             + (f"; first differing line {bad}; the object's past includes {past}" if past else "")))
     return out
 
 
-def listing_violations(history: List[List[Tuple[str, str]]]) -> List[Violation]:
-    """history = listings assembled one after the other on ONE Assembler object; each listing is a list of
-    (text, hex of the bytes that text assembles to alone).  Every listing must assemble to the concatenation of its
+def listing_violations(history: List[Any], attribute: bool = True) -> List[Violation]:
+    """history = what ONE Assembler object is given, in order: listings (lists of (text, hex of the bytes that text
+    assembles to alone)) and programs the assembler rejects.  Every listing must assemble to the concatenation of its
     lines' stand-alone bytes: a disassembled listing is accepted text, and assembling it must not depend on the other
-    lines of the listing or on what the Assembler object assembled before.  (Replay form: a fresh Assembler, the whole
-    history; exploration keeps the object alive and calls listing_step once per new listing -- same sequence.)"""
+    lines of the listing or on what the Assembler object was given before -- accepted or rejected.  (Replay form: a
+    fresh Assembler, the whole history; exploration keeps the object alive and calls listing_step once per new
+    listing -- same sequence.)"""
     from sc62015.pysc62015.sc_asm import Assembler
 
     asm = Assembler()
     for li in range(len(history)):
-        out = listing_step(asm, history[: li + 1])
+        if is_reject(history[li]):
+            run_reject(asm, history[li])
+            continue
+        out = listing_step(asm, history[: li + 1], attribute)
         if out:
             return out
     return []
+
+
+# ---- programs the assembler rejects (phase 2: "a rejected program leaves no trace in the Assembler object") ----
+REJECT_KINDS = (("symbol-out-of-range", 5), ("undefined-symbol", 1), ("literal-out-of-range", 1),
+                ("rejected-disassembler-text", 2), ("off-page-near-jump", 1), ("syntax-error", 1),
+                ("directive-bad-argument", 1), ("duplicate-label", 1))
+_REJECT_WHEEL = tuple(k for k, w in REJECT_KINDS for _ in range(w))
+REJECT_SYMBOL_VALUES = (0x100, 0x1FF, 0x1234, 0xFFFF, 0x10000, 0x12345, 0xFFFFF)
+REJECT_WIDE_LITERALS = (0x100, 0x10000, 0x12345, 0x1000000, 0xFFFFFFFFF)
+REJECT_BASES = (0x01000, 0x00000, 0x20000, 0x7ABC0)
+_LITERAL = re.compile(r"0x[0-9A-Fa-f]+")
+
+
+def compose_reject(pool: List[List[Any]], bad: List[str], upcoming: List[Tuple[str, str]], seed: int, hi: int,
+                   slot: int) -> Dict[str, Any]:
+    """A program the assembler is expected to reject: good lines (texts that round-trip alone) with ONE poisoned
+    statement at a generated position.  The kind of poison is generated; the poisoned line is derived from a line of
+    the listing that is assembled next (it shares instruction forms with it) or from any line of the pool:
+
+    symbol-out-of-range   a numeric literal of a good line replaced by a symbol defined (before or after its use) as a
+                          label at a generated address (0x100 .. 0xFFFFF): rejected in pass two, while the operand is
+                          encoded, when the value does not fit the operand (an 8-bit immediate/offset, a 16-bit word)
+    undefined-symbol      the same with no definition (pass two, before encoding)
+    literal-out-of-range  the literal replaced by a wider literal (pass one)
+    rejected-disassembler-text  a text the disassembler prints and the assembler rejected in phase 1 (pass one)
+    off-page-near-jump    JP/CALL/JPcc to a symbol or literal on another 64 KiB page (pass two, before encoding)
+    syntax-error          a mangled line (parser)
+    directive-bad-argument  defb/defw/defl whose LAST argument is undefined (pass two, after the first were encoded)
+    duplicate-label       (pass one)
+    Whether the program really is rejected is observed, not assumed (labels reject:<kind>:rejected / :not-rejected)."""
+    st = S.Stream(seed, 91, hi, slot)
+    kind = st.choice(_REJECT_WHEEL)
+
+    def good_line() -> str:
+        return pool[st.below(len(pool))][0]
+
+    def victim() -> Optional[str]:
+        cands = [t for t, _ in upcoming if _LITERAL.search(t)] if st.chance(1, 2) else []
+        if cands:
+            return st.choice(cands)
+        for _ in range(24):
+            t = good_line()
+            if _LITERAL.search(t):
+                return t
+        return None
+
+    def with_literal_replaced(t: str, new: str) -> str:
+        m = st.choice(list(_LITERAL.finditer(t)))
+        return t[:m.start()] + new + t[m.end():]
+
+    head = [f".ORG 0x{st.choice(REJECT_BASES):05X}"]
+    before = [good_line() for _ in range(st.below(4))]
+    after = [good_line() for _ in range(st.below(3))]
+    tail: List[str] = []
+    poison: List[str] = []
+
+    def define(name: str, value: int) -> None:
+        nonlocal head, tail
+        if st.chance(1, 2):
+            tail = [f".ORG 0x{value:05X}", f"{name}: NOP"]          # forward reference
+        else:
+            head = [f".ORG 0x{value:05X}", f"{name}: NOP"] + head     # defined before use (label and statement on one
+            #                                                           line: a lone 'NAME:' line is attached to the NEXT statement by the grammar)
+
+    if kind in ("symbol-out-of-range", "undefined-symbol", "literal-out-of-range"):
+        t = victim()
+        if t is None:
+            kind = "syntax-error"
+        elif kind == "literal-out-of-range":
+            poison = [with_literal_replaced(t, f"0x{st.choice(REJECT_WIDE_LITERALS):X}")]
+        else:
+            poison = [with_literal_replaced(t, "VPSYM")]
+            if kind == "symbol-out-of-range":
+                define("VPSYM", st.choice(REJECT_SYMBOL_VALUES))
+    if kind == "rejected-disassembler-text":
+        if bad:
+            poison = [bad[st.below(len(bad))]]
+        else:
+            kind = "syntax-error"
+    if kind == "off-page-near-jump":
+        mn = st.choice(sorted(NEAR_FLOW))
+        far = (((st.below(15) + 1) << 16) | st.below(0x10000)) ^ 0x80000     # never page 0; base pages 0, 2, 7 may coincide
+        if st.chance(1, 2):
+            poison = [f"{mn} VPFAR"]
+            define("VPFAR", far)
+        else:
+            poison = [f"{mn} 0x{far:05X}"]
+    if kind == "directive-bad-argument":
+        d = st.choice(("defb", "defw", "defl"))
+        poison = [d + " " + ", ".join([f"0x{st.below(256):02X}" for _ in range(1 + st.below(3))] + ["VPUNDEF"])]
+    if kind == "duplicate-label":
+        poison = ["VPDUP:", good_line(), "VPDUP:"]
+    if kind == "syntax-error":
+        t = good_line()
+        poison = [st.choice((t + " ,", t + " ]", "VP" + t, t.replace(",", " ", 1) if "," in t else t + " (", "(" + t))]
+    return {"reject": head + before + poison + after + tail, "kind": kind}
+
+
+def add_rejects(histories: List[List[Any]], pool: List[List[Any]], bad: List[str], seed: int) -> List[List[Any]]:
+    """Before each listing of a history: with probability 1/2 one rejected program (1/8: two in a row).  The listings
+    themselves and their order are unchanged."""
+    out: List[List[Any]] = []
+    for hi, history in enumerate(histories):
+        new: List[Any] = []
+        for li, listing in enumerate(history):
+            h = mix32(seed, 90, hi, li)
+            n = 0 if h % 2 else (2 if (h >> 1) % 4 == 0 else 1)
+            for j in range(n):
+                new.append(compose_reject(pool, bad, listing, seed, hi, li * 4 + j))
+            new.append(listing)
+        out.append(new)
+    return out
 
 
 N_LISTING_SEEDS = {"quick": 768, "thorough": 6144}
@@ -699,8 +886,9 @@ def compose_listings(pool: List[List[Any]], seed: int, tier: str) -> List[List[T
     return out
 
 
-def _listing_shard(task: Tuple[List[List[List[Tuple[str, str]]]], float]) -> Report:
-    """task = (histories, deadline); each history (<= LISTINGS_PER_ASSEMBLER listings) runs on one Assembler."""
+def _listing_shard(task: Tuple[List[List[Any]], float]) -> Report:
+    """task = (histories, deadline); each history (<= LISTINGS_PER_ASSEMBLER listings, rejected programs in between)
+    runs on one Assembler."""
     from sc62015.pysc62015.sc_asm import Assembler
 
     histories, deadline = task
@@ -710,19 +898,125 @@ def _listing_shard(task: Tuple[List[List[List[Tuple[str, str]]]], float]) -> Rep
             rep.inconclusive.append("time budget reached; some listings not assembled (not a violation)")
             break
         asm = Assembler()
+        uses = 0
+        after_reject: Optional[str] = None
         for li in range(len(history)):
+            entry = history[li]
+            if is_reject(entry):
+                rejected = run_reject(asm, entry)
+                lab = f"reject:{entry['kind']}:{'rejected' if rejected else 'not-rejected'}"
+                rep.case(("reject:" + jhash(entry["reject"])) if rejected else None, ["kind:rejected-program", lab],
+                         {"rejected-program": entry["reject"], "kind": entry["kind"], "rejected": rejected}
+                         if rep.labels.get(lab, 0) == 0 else None)
+                if rejected:
+                    after_reject = entry["kind"]
+                continue
             lv = listing_step(asm, history[: li + 1])
+            uses += 1
             for v in lv:
                 rep.violate(v)
-            distinct = len({t for t, _ in history[li]})
-            rep.case("listing:" + jhash(history[li]),
-                     ["kind:listing", f"listing-on-assembler-use:{li + 1}", f"listing-distinct-lines:{distinct}"]
+            distinct = len({t for t, _ in entry})
+            rep.case("listing:" + jhash(entry),
+                     ["kind:listing", f"listing-on-assembler-use:{uses}", f"listing-distinct-lines:{distinct}"]
+                     + ([f"listing-right-after-rejected:{after_reject}"] if after_reject else [])
                      + (["result:listing"] if lv else []),
-                     {"listing": [t for t, _ in history[li]]} if rep.labels.get("kind:listing", 0) % 50 == 1 else None)
+                     {"listing": [t for t, _ in entry]} if rep.labels.get("kind:listing", 0) % 50 == 1 else None)
+            after_reject = None
             if lv:
                 break       # the object's state after a failure says nothing more
     return rep
 
+
+# ----------------------------------------------------------------------------------------------------------
+# phase 4: the first Assembler of a process under a harness-owned schedule (see c09_startup.py)
+# ----------------------------------------------------------------------------------------------------------
+
+N_STARTUP = {"quick": 384, "thorough": 3072}
+STARTUP_ORG = 0x01000
+
+
+def compose_startup(pool: List[List[Any]], seed: int, idx: int) -> Dict[str, Any]:
+    """Thread A: the first Assembler of the process (construction only, or construction + assembling a disassembler
+    text); B: another Assembler + a disassembler text (same mnemonic as A's text 1/4 of the time); where A is parked /
+    abandoned (kfrac: fraction of A's traced run) and how (preempt 3/4, interrupt 1/4) are generated."""
+    st = S.Stream(seed, 95, idx)
+    ta = pool[st.below(len(pool))]
+    tb = pool[st.below(len(pool))]
+    if st.chance(1, 4):
+        same = [e for e in pool if e[2] == ta[2]]
+        tb = same[st.below(len(same))]
+    a: List[Any] = ["construct"] if st.chance(1, 4) else ["assemble", ta[0], STARTUP_ORG]
+    return {"kind": "startup", "mode": "interrupt" if st.chance(1, 4) else "preempt", "a": a,
+            "b": ["assemble", tb[0], STARTUP_ORG], "kfrac": st.below(10000), "expect_b": tb[1]}
+
+
+def startup_violations(case: Dict[str, Any], zyg: Any) -> Tuple[List[Violation], List[str]]:
+    from . import c09_startup as SU
+
+    o = SU.startup_outcome(case, zyg)
+    if "error" in o:
+        raise HarnessError("startup schedule: " + str(o["error"]))
+    out: List[Violation] = []
+    mode = case["mode"]
+    at = o.get("at") or "?"
+    labels = [f"startup-mode:{mode}", f"startup-a:{case['a'][0]}", f"startup-parked-in:{at}"]
+    shape_b = _asm_where(case.get("expect_b")) or "?"
+    how = ("while another thread is suspended inside the first Assembler() of the process" if mode == "preempt"
+           else "after the first Assembler() of the process was abandoned by an asynchronous exception")
+    where = f"{how} [in {at}]"
+    sched = f"A={case['a']} parked at traced line {o['k']}/{o['lines']} in {at}; B={case['b'][1]!r}"
+
+    def differs(want: List[Any], got: List[Any], who: str) -> None:
+        if got == want or got == ["blocked"]:
+            return
+        if got[0] == "rejected" and want[0] == "bytes":
+            sym = f"{who}: text accepted in the unscheduled run is rejected: " + SU.norm_rejection(got)
+        elif got[0] == "bytes" and want[0] == "bytes":
+            sym = f"{who}: bytes differ from the unscheduled run"
+        else:
+            sym = f"{who}: outcome differs from the unscheduled run ({want[0]} -> {got[0]})"
+        out.append(Violation("startup", where, sym, dict(case), f"{sched}: got {SU.describe(got)}, unscheduled {SU.describe(want)}"
+                             f" [{shape_b}]"))
+
+    differs(o["want_b"], o["got_b"], "second Assembler")
+    if mode == "preempt":
+        differs(o["want_a"], o["got_a"], "suspended thread")
+    exp = case.get("expect_b")
+    if exp is not None and o["want_b"] != ["bytes", exp]:
+        out.append(Violation("startup", "first Assembler() + assemble of a process", "differs from the same text assembled in a "
+                             "long-running process", dict(case), f"{case['b'][1]!r}: first use {SU.describe(o['want_b'])}, later {exp}"))
+    if o["got_b"] == ["blocked"]:
+        labels.append("startup:second-thread-blocked-until-resume")
+    return out, labels
+
+
+def _asm_where(hexbytes: Optional[str]) -> Optional[str]:
+    if not hexbytes:
+        return None
+    r = TP.tokens(bytes.fromhex(hexbytes) + G.NOP_PAD)
+    return where_of(r[0]) if r else None
+
+
+def _startup_shard(task: Tuple[List[Tuple[int, Dict[str, Any]]], float]) -> Report:
+    from . import c09_startup as SU
+
+    cases, deadline = task
+    rep = Report()
+    zyg = SU.Zygote()
+    try:
+        for idx, case in cases:
+            if time.time() > deadline:
+                rep.inconclusive.append("time budget reached; some start-up schedules not run (not a violation)")
+                break
+            vs, labels = startup_violations(case, zyg)
+            for v in vs:
+                rep.violate(v)
+            rep.case("startup:" + jhash([case["mode"], case["a"], case["b"], case["kfrac"]]),
+                     ["kind:startup"] + labels + (["result:startup"] if vs else []),
+                     {k: case[k] for k in ("mode", "a", "b", "kfrac")} if rep.labels.get("kind:startup", 0) % 20 == 3 else None)
+    finally:
+        zyg.close()
+    return rep
 
 
 # ----------------------------------------------------------------------------------------------------------
@@ -1006,6 +1300,8 @@ def _shard(task: Tuple[int, int, int, str, float]) -> Report:
     n_bytewise = len(gs) - len(boundary_groups(seed, tier))
     good: List[List[Any]] = []       # [text, hex of its stand-alone bytes, mnemonic, where, operand texts]
     seen_good: set = set()
+    bad: List[str] = []              # texts the assembler rejected (material for phase 2's rejected programs)
+    seen_bad: set = set()
     # the whole-operand boundary groups (indices >= n_bytewise) go first: a time budget hit must not drop a class
     for gi in list(range(n_bytewise, len(gs))) + list(range(n_bytewise)):
         op, b2, tail = gs[gi]
@@ -1054,7 +1350,11 @@ def _shard(task: Tuple[int, int, int, str, float]) -> Report:
                     and info["text"] not in seen_good:
                 seen_good.add(info["text"])
                 good.append([info["text"], info["reassembled"], mn, where, signature(toks)[2]])
+            if "result:assemble-fails" in labels and info.get("text") and where not in seen_bad and len(bad) < 24:
+                seen_bad.add(where)
+                bad.append(info["text"])
     rep.extra["_good"] = good
+    rep.extra["_bad"] = bad
     return rep
 
 
@@ -1067,6 +1367,18 @@ ASSUMPTIONS = [
     "decoder's text does not depend on the address, so neither may the assembler's acceptance of it",
     "listing: a line's bytes inside a listing (at .ORG 0x1000, near JP/CALL lines left out) must equal its stand-alone "
     "bytes whatever the other lines are and whatever the Assembler object assembled before",
+    "listing after a rejected program: an Assembler object is documented as reusable only implicitly (hw-test/"
+    "orchestrator.py keeps one for its whole run; assemble() re-initialises symbols, section pointers and the "
+    "instruction cache on entry); the statement's last sentence ('never emits an encoding whose length ... differs') "
+    "has no proviso about what the object was given before, so a program that was REJECTED -- whatever it contained -- "
+    "may not change what the next accepted text assembles to. Nothing is asserted about the rejected program itself "
+    "(whether it is rejected is observed and labelled)",
+    "startup: the statement has no single-thread / warm-process proviso: a text that assembles in an unscheduled "
+    "pristine process must assemble to the same bytes when the Assembler is the second one of the process and the "
+    "first one is still under construction on a parked thread, or was abandoned by an asynchronous BaseException "
+    "(Ctrl-C, signal-based test timeout). The schedule is harness-owned (line tracer on repository frames; B runs to "
+    "completion while A is parked; if B blocks on a lock A is resumed after 5 s and B is not reported), so the "
+    "outcome is deterministic; the reference is the unscheduled run of the same activity in another pristine process",
     "sweep: 'its rendered text' is the text of the instruction's own bytes -- the line the disassembler prints for an "
     "instruction inside a code buffer (linear sweep, each instruction decoded from buffer[offset:], all decoded "
     "instruction objects kept alive, rendered at once and again after the whole buffer was decoded) and its lifted IL "
@@ -1115,22 +1427,38 @@ def run(ctx: Ctx) -> Report:
     reports = ctx.pmap(_shard, [(i, nshards, ctx.seed, ctx.tier, deadline) for i in range(nshards)])
     # phase 2: listings composed from ALL texts that round-tripped alone (shard order, then generation order)
     pool: List[List[Any]] = []
+    bad: List[str] = []
     seen: set = set()
     for r in reports:
         for e in r.extra.pop("_good", []):
             if e[0] not in seen:
                 seen.add(e[0])
                 pool.append(e)
+        for t in r.extra.pop("_bad", []):
+            if t not in seen:
+                seen.add(t)
+                bad.append(t)
     listings = compose_listings(pool, ctx.seed, ctx.tier)
-    histories = [listings[i:i + LISTINGS_PER_ASSEMBLER] for i in range(0, len(listings), LISTINGS_PER_ASSEMBLER)]
-    tasks = [([h for j, h in enumerate(histories) if j % nproc == w], deadline) for w in range(nproc)]
+    histories: List[List[Any]] = [listings[i:i + LISTINGS_PER_ASSEMBLER] for i in range(0, len(listings), LISTINGS_PER_ASSEMBLER)]
+    if pool:
+        # before every second listing the object is first given a program it rejects (generated kind and position)
+        histories = add_rejects(histories, pool, bad, ctx.seed)
+    late = max(deadline, time.time() + LATE_PHASE_GRACE[ctx.tier])
+    tasks = [([h for j, h in enumerate(histories) if j % nproc == w], late) for w in range(nproc)]
     reports += ctx.pmap(_listing_shard, [t for t in tasks if t[0]])
+    # phase 4: the first Assembler of a process under a harness-owned schedule, in pristine processes
+    if pool:
+        scases = [(i, compose_startup(pool, ctx.seed, i)) for i in range(N_STARTUP[ctx.tier])]
+        late = max(deadline, time.time() + LATE_PHASE_GRACE[ctx.tier])
+        stasks = [([c for c in scases if c[0] % nproc == w], late) for w in range(nproc)]
+        reports += ctx.pmap(_startup_shard, [t for t in stasks if t[0]])
     same_op: set = set()
     for r in sweeps:
         same_op.update(r.extra.pop("_sweep_same_op", []))
     reports += sweeps
     rep = merge_reports(reports)
     rep.extra["listing_pool_distinct_texts"] = len(pool)
+    rep.extra["rejected_text_pool"] = len(bad)
     rep.extra["sweep_opcodes_followed_by_same_opcode_with_other_operands"] = len(same_op)
     for k in [k for k in rep.extra if k.startswith("_")]:
         del rep.extra[k]
@@ -1145,13 +1473,25 @@ def run(ctx: Ctx) -> Report:
 
 def replay(ctx: Ctx, case: Dict[str, Any]) -> List[Violation]:
     if case.get("kind") == "listing":
-        return listing_violations([[tuple(x) for x in l] for l in case["history"]])
+        return listing_violations(_history_from_json(case["history"]))
+    if case.get("kind") == "startup":
+        from . import c09_startup as SU
+
+        zyg = SU.Zygote()
+        try:
+            return startup_violations(case, zyg)[0]
+        finally:
+            zyg.close()
     if case.get("kind") == "sweep":
         _SWEEP_CONSEQ[0] = 0
         return sweep_violations([bytes.fromhex(c) for c in case["codes"]], case["addr"])[0]
     code = bytes.fromhex(case["code"])
     vs, _, _ = verdict(code, case.get("state"), recheck=True, org=case.get("org"))
     return vs
+
+
+def _history_from_json(history: List[Any]) -> List[Any]:
+    return [dict(e) if isinstance(e, dict) else [tuple(x) for x in e] for e in history]
 
 
 def _same(vs: List[Violation], key: str) -> Optional[Violation]:
@@ -1162,14 +1502,15 @@ def _same(vs: List[Violation], key: str) -> Optional[Violation]:
 
 
 def shrink_listing(v: Violation) -> Violation:
-    """Drop earlier listings, then lines of the last listing, as long as the fingerprint stays (bounded: 60 s)."""
+    """Drop earlier entries (listings, rejected programs), then lines of the listings and of the rejected programs, as
+    long as the fingerprint stays (bounded: 60 s)."""
     key = v.key()
     t0 = time.time()
     best = v
-    history = [[tuple(x) for x in l] for l in v.case["history"]]
+    history = _history_from_json(v.case["history"])
 
-    def attempt(h: List[List[Tuple[str, str]]]) -> Optional[Violation]:
-        if time.time() - t0 > 60 or not h or not h[-1]:
+    def attempt(h: List[Any]) -> Optional[Violation]:
+        if time.time() - t0 > 60 or not h or is_reject(h[-1]) or not h[-1]:
             return None
         return _same(listing_violations(h), key)
 
@@ -1183,9 +1524,12 @@ def shrink_listing(v: Violation) -> Violation:
             i += 1
     for which in range(len(history) - 1, -1, -1):
         j = 0
-        while j < len(history[which]) and len(history[which]) > 1:
-            trial = [list(l) for l in history]
-            del trial[which][j]
+        while True:
+            lines = history[which]["reject"] if is_reject(history[which]) else history[which]
+            if j >= len(lines) or len(lines) <= 1:
+                break
+            trial = [dict(e, reject=list(e["reject"])) if is_reject(e) else list(e) for e in history]
+            del (trial[which]["reject"] if is_reject(trial[which]) else trial[which])[j]
             got = attempt(trial)
             if got is not None:
                 best, history = got, trial
@@ -1222,6 +1566,8 @@ def shrink(ctx: Ctx, v: Violation) -> Violation:
         return shrink_listing(v)
     if case.get("kind") == "sweep":
         return shrink_sweep(v)
+    if case.get("kind") == "startup":
+        return v
 
     def attempt(code: bytes, state: Optional[Dict[str, Any]]) -> Optional[Violation]:
         if time.time() - t0 > 60:
